@@ -102,7 +102,12 @@ pub fn apply_load_balancing_policy(
     let mut bin_totals = vec![0.0; parallelism];
     let mut assignments: Vec<Vec<&serde_json::Value>> = vec![vec![]; parallelism];
     for q in queries.iter() {
-        let w = q.get_query_weight_estimate()?.unwrap_or(default);
+        // the estimate is only a balancing hint: one that cannot be read counts as a missing
+        // one, it must not fail the whole batch
+        let w = q
+            .get_query_weight_estimate()
+            .unwrap_or(None)
+            .unwrap_or(default);
         let min_bin = min_bin(&bin_totals)?;
         bin_totals[min_bin] += w;
         assignments[min_bin].push(q);
